@@ -14,14 +14,15 @@ import (
 	"verifharness/lib"
 )
 
-// openWindowCase forces the window of the known finding `open-hook-window` deterministically:
+// openWindowCase forces the open-hook window (repaired defect, fix 5a92fce) deterministically:
 // the in-port of an observed OneToOne node is opened for a process on one goroutine; an open hook
 // of the harness (added last, hence run first) holds that goroutine inside InPort.Open – after the
 // reader has been published in the port's map, before the agent's open hook has attached its packet
 // hooks. Meanwhile the process's source writer is opened (it finds the published reader and links
 // to it) and writes request 1. Then the held goroutine goes on: hooks attached, the node starts,
 // request 1 travels on, is answered, and n-1 further requests follow in lock-step.
-// Expected by the statement: every recorded frame of the port pairs a request with its own answer.
+// Expected (fix 5a92fce): request 1 has no frame, its answer is not recorded, and every recorded
+// frame of the port pairs a request with its own answer.
 func openWindowCase(c *lib.Ctx, rng *lib.RNG, sc *lib.Script, fails *[]lib.OracleFail) string {
 	fs := chainFlow([]int{rng.Range(0, 5)})
 	n := rng.Range(2, 4)
@@ -97,13 +98,26 @@ func openWindowCase(c *lib.Ctx, rng *lib.RNG, sc *lib.Script, fails *[]lib.Oracl
 		for _, row := range rows {
 			trace = append(trace, fmt.Sprintf("# frame port=%v(%s) in=%s out=%s", row.key, t.names[row.key], pid(row.in), pid(row.out)))
 		}
-		tv := t
-		if window := openHookWindow(t, 0, rows, false); len(window) > 0 {
-			class, what = "open-hook-window", fmt.Sprintf("in-port %v (%s): request 1 passed before the agent's packet hooks were attached (InPort.Open publishes the reader before the open hooks have run); it has no frame, its answer is an orphan frame and every later frame of the port pairs request k+1 with answer k", window[0], t.names[window[0]])
-			c.Hit("frames-open-hook-window-hit")
-			tv, rows = withoutPorts(t, 0, rows, window)
+		// the agent before fix 5a92fce: orphan frame, every later frame shifted – must not come back
+		if old := openHookWindow(t, 0, rows, false); len(old) > 0 {
+			class, what = "open-hook-window", fmt.Sprintf("in-port %v (%s): request 1 passed before the agent's packet hooks were attached, its answer was recorded as an orphan frame and every later frame of the port pairs request k+1 with answer k", old[0], t.names[old[0]])
+			return
 		}
-		// everything else must be in order (also: all of it, once the window is repaired)
+		// repaired: request 1 has no frame, its answer is skipped, the frames read (R2,A2) … (Rn,An)
+		tv, window := windowView(t, 0, rows, false)
+		if len(window) > 0 {
+			c.Hit("frames-open-hook-window-hit")
+		}
+		onPort := 0
+		for _, r := range rows {
+			if r.key.sym == 1 && r.key.in >= 0 {
+				onPort++
+			}
+		}
+		if len(window) != 1 || onPort != n-1 {
+			class, what = "frame-count-vs-requests", fmt.Sprintf("the forced window: %d requests passed the in-port of node 1, the first before the hooks were attached: %d frames expected there, the agent holds %d (window recognised on %d ports)", n, n-1, onPort, len(window))
+			return
+		}
 		if cl, wh := framesPairingOracle(tv, 0, rows); cl != "" {
 			class, what = cl, wh
 		}
